@@ -547,6 +547,12 @@ func (conn *obfs4Conn) Write(b []byte) (int, error) {
 				// window and will sample the length distribution every time a
 				// write is scheduled.
 				targetLen := conn.lenDist.Sample()
+				if targetLen == 0 {
+					// A target length of 0 means "end on a segment
+					// boundary" (see padBurst()), so write a full segment
+					// instead of attempting a 0 byte write.
+					targetLen = framing.MaximumSegmentLength
+				}
 				if frameBuf.Len() < targetLen {
 					// There's not enough data buffered for the target write,
 					// so padding must be inserted.
